@@ -164,6 +164,9 @@ def continuation_c17(T, w0, w1, m0):
     for c in menu:
         wa, wb = w1.clone(), w0.clone()
         ra, rb = wa.apply(c, []), wb.apply(c, [])
+        if "ActionTimeout" in (ra.exc_type, rb.exc_type):
+            wa, wb = w1.clone(), w0.clone()
+            ra, rb = wa.apply(c, [], timeout=300.0), wb.apply(c, [], timeout=300.0)
         if ra.symptom() != rb.symptom() or repr(ra.value) != repr(rb.value):
             V.append(_viol("C17", "continue", T, "continuation-differs",
                            f"{c[0]}:{c[3] if c[0] == 'op' else ''} on {c[2]} after the rejected call: {ra.symptom()} {ra.value!r} vs fault-free {rb.symptom()} {rb.value!r}"))
